@@ -634,7 +634,8 @@ def plan(tier):
         Ms = (1, 2, 3, 4, 5, 6, 7)
         add('SDC implicit: all generators x 24 families x M<=7 x k=1..p+2 x end-point modes (+converged)', sdc('implicit', [{'QI': g} for g in G], ALL_FAMILIES, Ms))
         add('SDC explicit: all generators x 24 families x M<=7 x k=1..p+2 x modes (+converged)', sdc('explicit', [{'QE': g} for g in G], ALL_FAMILIES, Ms))
-        add('SDC IMEX: all QI generators x {FE,PIC,SOE} x 24 families x M<=3 (LEGENDRE: M<=4) x k=1..p+2 x modes (+converged)', sdc('imex', [{'QI': a, 'QE': b} for a in G for b in EXPL_OK], ALL_FAMILIES, (1, 2, 3)) + sdc('imex', [{'QI': a, 'QE': b} for a in G for b in EXPL_OK], LEG, (4,)))
+        add('SDC IMEX: all QI generators x FE x 24 families x M<=3 (LEGENDRE: M<=4) x k=1..p+2 x modes (+converged)', sdc('imex', [{'QI': a, 'QE': 'FE'} for a in G], ALL_FAMILIES, (1, 2, 3)) + sdc('imex', [{'QI': a, 'QE': 'FE'} for a in G], LEG, (4,)))
+        add('SDC IMEX: core QI generators x {PIC,SOE} x 24 families x M<=3 x k=1..p+2 x modes (+converged)', sdc('imex', [{'QI': a, 'QE': b} for a in CORE_I for b in ('PIC', 'SOE')], ALL_FAMILIES, (1, 2, 3)))
     add('RK: every RungeKutta / RungeKuttaIMEX class, one controller step, maxiter=1', [dict(clause='rk', sweeper=n) for n in rk_classes()])
     return units, desc
 
